@@ -248,6 +248,9 @@ func cmdReplay(args []string) int {
 		fmt.Fprintln(os.Stderr, err)
 		return 2
 	}
+	if os.Getenv("GOSMT_REPLAY_VERBOSE") != "" {
+		fmt.Println(out)
+	}
 	fmt.Printf("replay of %s %s label=%s: failed=%v panic=%q\n", rf.Property, rf.Harness, rf.Label, failed, panicked)
 	if replayMatches(&rf, failed, panicked) {
 		fmt.Printf("REPRODUCED property=%s\n", rf.Property)
